@@ -575,6 +575,28 @@ impl Hist {
                 }
                 let route = if act == Act::Auto { "compaction-auto" } else { "compaction-auto-schedule" };
                 let path = format!("/threads/{}/{route}", enc(&tid));
+                // independent of what the call answers: does the raw log leave anything to compact for these parameters?
+                let nothing_to_compact = {
+                    let stride = match body.get("stride_messages") {
+                        None => Some(None),
+                        Some(x) => x.as_u64().map(Some),
+                    };
+                    let max_new = match body.get("max_new_checkpoints") {
+                        None => Some(None),
+                        Some(x) => x.as_u64().and_then(|m| u32::try_from(m).ok()).map(Some),
+                    };
+                    match (stride, max_new) {
+                        (Some(st), Some(mx)) if idc == "real" && self.pending.is_empty() => {
+                            crate::c09::nothing_to_compact(&self.store.log_bytes_settled(), &tid, st, mx)
+                        }
+                        _ => None,
+                    }
+                };
+                match nothing_to_compact {
+                    Some(true) => r.count("compaction_calls_with_nothing_to_compact_by_raw_log", 1),
+                    Some(false) => r.count("compaction_calls_with_work_to_do_by_raw_log", 1),
+                    None => r.count("compaction_calls_not_classified_by_raw_log", 1),
+                }
                 let (st, b) = send(&app, "POST", &path, Some("application/json"), jbody(&body)).await?;
                 let v = parse(&b);
                 let mut acked = vec![];
@@ -597,6 +619,10 @@ impl Hist {
                     Expect::Nothing("dry_run_true")
                 } else if st == 200 && (answer == "noop" || answer == "dry_run") {
                     Expect::Nothing("answered_noop")
+                } else if nothing_to_compact == Some(true) && st < 300 {
+                    // every eligible cut point already has a checkpoint frame in the log: this invocation is a no-op
+                    // whatever it answers
+                    Expect::Nothing("nothing_to_compact_by_raw_log")
                 } else {
                     Expect::MayWrite
                 };
@@ -910,10 +936,28 @@ impl Hist {
                 let files: Vec<PathBuf> = std::fs::read_dir(&dir)
                     .map(|rd| rd.flatten().map(|e| e.path()).filter(|p| p.is_file()).collect())
                     .unwrap_or_default();
-                let kind = rng.below(6);
+                let kind = rng.below(8);
                 let what: &'static str = match kind {
+                    // the cache root itself unusable (a regular file in its place): every cache write is dropped and
+                    // every read answers from the log until a later fault of kind 0 / 5 / 7 clears the way again
+                    6 => {
+                        let _ = std::fs::remove_dir_all(&dir);
+                        let _ = std::fs::remove_file(&dir);
+                        let _ = std::fs::write(&dir, b"not a directory");
+                        "cache_root_replaced_by_file"
+                    }
+                    7 => {
+                        if dir.is_file() {
+                            let _ = std::fs::remove_file(&dir);
+                            "cache_root_restored"
+                        } else {
+                            let _ = std::fs::remove_dir_all(&dir);
+                            "delete_all_stream_caches"
+                        }
+                    }
                     0 => {
                         let _ = std::fs::remove_dir_all(&dir);
+                        let _ = std::fs::remove_file(&dir);
                         "delete_all_stream_caches"
                     }
                     1 if !files.is_empty() => {
@@ -942,11 +986,12 @@ impl Hist {
                     }
                     _ => {
                         let _ = std::fs::remove_dir_all(&dir);
+                        let _ = std::fs::remove_file(&dir);
                         let _ = std::fs::remove_file(self.store.data.join("continuities").join("index.json"));
                         "delete_all_caches_and_index"
                     }
                 };
-                self.fault_armed = 8;
+                self.fault_armed = if what == "cache_root_replaced_by_file" { 10_000 } else { 8 };
                 self.last_fault = what;
                 r.count("cache_faults_applied", 1);
                 r.count(&format!("fault:{what}"), 1);
